@@ -27,6 +27,7 @@ def c3(ctx):
 
 
 def c4(ctx):
+    timing.queries_are_pure(ctx, ["hittable", "time_at"])
     timing.coalesce_coherence(ctx)
     timing.hittable_rule(ctx)
     timing.bisect_rule(ctx, "hittable", "_tagged_beats")
